@@ -31,6 +31,8 @@ Class Num := {
   c_dist_a : num;                 (* -0.15 default distillation a *)
   c_dist_b : num;                 (* 0.3   default distillation b *)
   c_maxfloat : num;               (* math.MaxFloat64 (NumQc: a large rational, see there) *)
+  c_tol_abs : num;                (* 1.5e-8: half a unit of the API's 1e-8 rounding plus slack (checkers only) *)
+  c_tol_rel : num;                (* 1e-9  relative slack for re-associated sums (checkers only) *)
   (* bit-level identity, used only to compare observed with computed values *)
   nsame : num -> num -> bool;
 }.
@@ -57,6 +59,8 @@ Section Derived.
   Definition nmax (x y : num) : num := if y <? x then x else y.      (* math.Max on non-NaN *)
   (* utils.FloatsAreEqual(a, b, eps) = math.Abs(a-b) <= eps *)
   Definition floats_are_equal (a b eps : num) : bool := nabs (a - b) <=? eps.
+  (* |a - b| <= 1.5e-8 + 1e-9*|b| : equality up to the API rounding *)
+  Definition approx8 (a b : num) : bool := nabs (a - b) <=? (c_tol_abs + c_tol_rel * nabs b).
   Fixpoint nsum (l : list num) : num :=
     match l with [] => nzero | x :: r => x + nsum r end.
   (* left-to-right accumulation as Go's [total += x] starting from 0 *)
@@ -74,6 +78,8 @@ Class OrdLaws (N : Num) := {
   ltb_leb : forall x y, okv x -> okv y -> nltb x y = negb (nleb y x);
   eqb_leb : forall x y, okv x -> okv y -> neqb x y = nleb x y && nleb y x;
   round8_okv : forall x, okv x -> okv (nround8 x);
+  same_refl : forall x, nsame x x = true;
+  same_eq : forall x y, nsame x y = true -> x = y;
 }.
 
 Section OrdFacts.
